@@ -9,6 +9,7 @@ import InToto.Proofs.PipeThresholds
 import InToto.Proofs.PipeSigs
 import InToto.Generated.Facts
 import InToto.Proofs.Pipeline
+import InToto.Model.StageOrder
 
 namespace InToto.C02
 open InToto InToto.Schema InToto.Metadata InToto.Verify InToto.PipeProofs InToto.PipelineProofs InToto.Json InToto.Schema InToto.Metadata
@@ -137,5 +138,12 @@ theorem pipeline_is_conjunction_of_stages (W : World) (ln : Bool) (ci : List Str
         resolveSteps (recOf W ln ci fuel) lay dir ver acc = (.ok res, acc1) ∧
         (finishStage W rd sn lay res acc1).out = .ok s :=
   verifyAux_ok_iff W ln ci fuel md keys dir sn params rd acc s
+
+/-- REGENERATED FACT (stage order): in both entry points the signature thresholds are checked
+    unconditionally, after the links were loaded and before sublayouts are followed, links are reduced
+    or rules evaluated -/
+theorem facts_thresholds_stage_position :
+    (StageOrder.before Generated.stagesInTotoVerify "LoadLinksForLayout" "VerifyLinkSignatureThesholds" && StageOrder.beforeAll Generated.stagesInTotoVerify "VerifyLinkSignatureThesholds" ["VerifySublayouts", "ReduceStepsMetadata", "VerifyArtifacts", "RunInspections"]) = true ∧
+    (StageOrder.before Generated.stagesInTotoVerifyWithDirectory "LoadLinksForLayout" "VerifyLinkSignatureThesholds" && StageOrder.beforeAll Generated.stagesInTotoVerifyWithDirectory "VerifyLinkSignatureThesholds" ["VerifySublayouts", "ReduceStepsMetadata", "VerifyArtifacts", "RunInspections"]) = true := by decide
 
 end InToto.C02
